@@ -453,3 +453,19 @@ func ReplayFile(property string, scenarios map[string]*Scenario, path string) in
 	fmt.Println("violation did not reproduce on the current tree")
 	return 0
 }
+
+// SpreadBudget sets every job's time budget so that all jobs together fit the tier's wall-clock allowance
+// (total seconds) when run on procs workers; no job gets less than min seconds.
+func SpreadBudget(jobs []Job, totalS float64, procs int, minS float64) {
+	if len(jobs) == 0 {
+		return
+	}
+	rounds := float64((len(jobs) + procs - 1) / procs)
+	b := totalS / rounds
+	if b < minS {
+		b = minS
+	}
+	for i := range jobs {
+		jobs[i].BudgetS = b
+	}
+}
